@@ -36,6 +36,7 @@ def run(ctx):
     r5_preamble(ctx)
     r6_torn_tail(ctx)
     r7_restore_reads_current_file(ctx)
+    r8_nothing_dropped(ctx)
 
 
 # ------------------------------------------------------------------------------------------ R1
@@ -387,6 +388,63 @@ def r7_restore_reads_current_file(ctx):
                detail={"compared_with": unparse(other) if other is not None else None, "default": unparse(c.args[1]) if len(c.args) == 2 else None})
 
 
+# ------------------------------------------------------------------------------------------ R8
+def chunker_partitions(ctx, rule):
+    """ChunkTasks._max_chunker in the cardinality domain: for n = 0..14 tasks and max_tasks in {None, 0, 1..6} the yielded batches are
+    non-empty, respect max_tasks and their sizes sum to n (no task lost or duplicated by batching)."""
+    from ..cardinality import CardEval, Elems, Opaque, Unmodelled, length
+    fn = ctx.fn(PROC, "ChunkTasks._max_chunker")
+    ps = [a.arg for a in fn.args.args]
+    bad, unm, cfgs = [], None, 0
+    for n in range(0, 15):
+        for mx in (None, 1, 2, 3, 4, 5, 6):
+            cfgs += 1
+            ce = CardEval({ps[0]: Opaque(), ps[1]: Elems(n), ps[2]: mx})
+            try:
+                ce.run(fn.body)
+                sizes = [length(y) for y in ce.yields]
+            except Unmodelled as e:
+                unm = str(e)
+                break
+            ok = sum(sizes) == n and all(sz > 0 for sz in sizes) and (mx is None or all(sz <= mx for sz in sizes))
+            if not ok:
+                bad.append({"n": n, "max_tasks": mx, "batch sizes": sizes})
+        if unm:
+            break
+    ctx.ob(rule, PROC, "ChunkTasks._max_chunker", fn, "batching partitions the tasks of a chunk: sizes sum to n, every batch non-empty and <= max_tasks (n <= 14, max_tasks <= 6)",
+           None if unm else not bad, detail={"configurations": cfgs, "unmodelled": unm, "first_mismatches": bad[:3]}, stmt="_max_chunker partitions")
+    ch = ctx.fn(PROC, "ChunkTasks._chunks")
+    calls = [c for c in ast.walk(ch) if isinstance(c, ast.Call) and call_tail(c) == "_max_chunker"]
+    ctx.ob(rule, PROC, "ChunkTasks._chunks", calls[0] if calls else ch, "every chunk goes through the batcher", bool(calls), stmt="chunks batched")
+
+
+def r8_nothing_dropped(ctx):
+    ctx.rule("C02.R8", "whatever was evaluated is written: the encoder's dispatch loop has no continue/break/return and each arm yields unconditionally "
+                       "(skipping is MakeTasks' job, keyed by the full triple -- R4); batching by maxtasksperchunk partitions the remaining tasks")
+    enc = ctx.fn(RES, "TransactionEncode.filter")
+    loops = [s_ for s_ in enc.body if isinstance(s_, ast.For)]
+    ctx.floor("C02.R8", "dispatch loop of TransactionEncode.filter", len(loops), 1)
+    lp = loops[0]
+    jumps = [x for x in ast.walk(lp) if isinstance(x, (ast.Continue, ast.Break, ast.Return))]
+    ctx.ob("C02.R8", RES, "TransactionEncode.filter", jumps[0] if jumps else lp, "the dispatch loop never skips a transaction (no continue / break / return)", not jumps, stmt="encoder loop has no jumps")
+    for y in [x for x in ast.walk(lp) if isinstance(x, ast.Yield)]:
+        g = [(unparse(t), pol) for t, pol in guards_of(y, enc)]
+        extra = [t for t, pol in g if not (t.endswith("[0] == 'T0'") or t.endswith("[0] == 'T1'") or t.endswith("[0] == 'T2'") or t.endswith("[0] == 'T3'") or t.endswith("[0] == 'T4'"))]
+        ctx.ob("C02.R8", RES, "TransactionEncode.filter", y, "the record is written whenever its transaction arrives (guarded by the tag test only)", not extra, detail={"other guards": extra})
+    init = ctx.fn(RES, "TransactionEncode.__init__")
+    stores = [unparse(t) for x in ast.walk(init) if isinstance(x, ast.Assign) for t in x.targets]
+    ctx.ob("C02.R8", RES, "TransactionEncode.__init__", init, "the encoder keeps nothing but the restored flag (it has no basis for filtering)", stores == ["self._restored"], detail={"stores": stores}, stmt="encoder state")
+    chunker_partitions(ctx, "C02.R8")
+    # the other direction: whatever was written is recognised as done on resume.  MakeTasks derives the finished triples from the rows of
+    # the restored interactions table, so an I record must leave a trace there
+    res = ctx.fn(RES, "TransactionResult.filter")
+    for iff in [x for x in ast.walk(res) if isinstance(x, ast.If) and "_packed" in unparse(x.test)]:
+        conj = iff.test.values if isinstance(iff.test, ast.BoolOp) and isinstance(iff.test.op, ast.And) else [iff.test]
+        truthy = [c for c in conj if isinstance(c, ast.Subscript) and const_str(c.slice) == "_packed"]
+        ctx.ob("C02.R8", RES, "TransactionResult.filter", iff, "an evaluation recorded with no rows is still remembered as done (otherwise every resume evaluates and records it again)",
+               not truthy, detail={"test": unparse(iff.test)}, stmt="empty evaluation remembered")
+
+
 # ------------------------------------------------------------------------------------------ R6
 def _in_tolerant_try(node, fn):
     """node lies in the body of a try with a handler that catches ValueError (or wider) and does not re-raise."""
@@ -465,6 +523,10 @@ def _memoise_from_save(tree):
 
 
 CONTROLS = [
+    ("encoder skips evaluations it believes restored", RES, M.insert_before("TransactionEncode.filter", lambda st: isinstance(st, ast.Assign) and "defaultdict" in ast.unparse(st.value),
+                                                                           "if self._restored and tuple(item[1][:2]) in set(): continue"), "C02.R8"),
+    ("equal-sized batches drop the remainder", PROC, M.replace_stmt("ChunkTasks._max_chunker", lambda st: isinstance(st, ast.While),
+        "for i in range(-(-len(batch) // max_tasks) if max_tasks else 0):\n    yield batch"), "C02.R8"),
     ("experiment row only for fresh files", EXP, M.replace_expr("Experiment.run", "restored and restored.experiment", "restored", nth=0), "C02.R5"),
     ("from_save memoised by file name", RES, _memoise_from_save, "C02.R7"),
     ("missing experiment row counts as mismatch", EXP, M.replace_expr("Experiment.run", "restored.experiment.get('n_learners', n_given_lrns)", "restored.experiment.get('n_learners', len(restored.learners))"), "C02.R7"),
